@@ -269,3 +269,51 @@ theorem forced_init_race_free (x : Nat) (calls : List Nat) (hpos : ∀ tid ∈ c
       rw [this] at hw; cases hw
 
 end BtcVerif.Model.HB
+
+/-! ### from the table to traces: the discipline evaluated on the rows is a discipline of every
+    execution the rows describe -/
+
+namespace BtcVerif.Model.HB
+
+/-- the rows describe the trace: every read or write event has a row for its location with the same
+    kind and the same "during initialisation" flag, and a row marked guarded stands for an access made
+    while holding the location's mutex -/
+def Conforms (t : Trace) (rows : List AccessRow) (mutexOf : Nat → Nat) : Prop :=
+  ∀ (i : Nat) (e : Event), t[i]? = some e → (e.kind = .read ∨ e.kind = .write) →
+    ∃ r ∈ rows, r.loc = e.obj ∧ r.isWrite = decide (e.kind = .write) ∧ r.inInit = decide (e.tid = 0) ∧
+      (r.guarded = true → holder t (mutexOf e.obj) i = some e.tid)
+
+/-- discipline (a) or (b) of `locOk` on the rows of `x` -/
+def locOkAB (rows : List AccessRow) (x : Nat) : Bool :=
+  let mine := rows.filter (fun r => r.loc == x)
+  mine.all (fun r => !r.isWrite || r.inInit) || mine.all (fun r => r.inInit || r.guarded)
+
+theorem table_discipline_sound (t : Trace) (rows : List AccessRow) (mutexOf : Nat → Nat) (x : Nat)
+    (hf : InitFirst t) (hm : MutexOk t) (hc : Conforms t rows mutexOf) (hok : locOkAB rows x = true) :
+    ¬ RaceOn t x := by
+  unfold locOkAB at hok
+  simp only [Bool.or_eq_true, List.all_eq_true, List.mem_filter, beq_iff_eq, and_imp] at hok
+  rcases hok with ha | hb
+  · -- written only during initialisation
+    apply init_only_race_free t x hf
+    intro i e hi hw hx
+    obtain ⟨r, hr, hloc, hisw, hinit, _⟩ := hc i e hi (Or.inr hw)
+    have := ha r hr (by rw [hloc, hx])
+    simp only [hisw, hw, decide_true, Bool.not_true, Bool.false_or] at this
+    rw [hinit] at this
+    rcases this with h | h
+    · cases h
+    · exact of_decide_eq_true h
+  · -- every later access under the mutex
+    apply guarded_race_free t x (mutexOf x) hf hm
+    intro i e hi hk hx htid
+    obtain ⟨r, hr, hloc, _, hinit, hg⟩ := hc i e hi hk
+    have := hb r hr (by rw [hloc, hx])
+    have hni : r.inInit = false := by rw [hinit]; exact decide_eq_false htid
+    simp only [hni, Bool.false_or] at this
+    rw [← hx]
+    rcases this with h | h
+    · cases h
+    · exact hg h
+
+end BtcVerif.Model.HB
